@@ -448,6 +448,42 @@ def order_independence(R, rng, tier):
     shutil.rmtree(d, ignore_errors=True)
 
 
+def many_findings_few_descriptors(R, rng, tier):
+    """More files with findings than the process may hold open at once (a soft descriptor limit of 64, 150 healthy files with one
+    finding each): every file is scanned, none is skipped, every finding has its excerpt."""
+    import shutil
+    import subprocess
+    import sys
+    d = os.path.join(impl.scratch(), "fdlimit")
+    shutil.rmtree(d, ignore_errors=True)
+    os.makedirs(d)
+    n = 150
+    for i in range(n):
+        open(os.path.join(d, "f%03d.py" % i), "w").write("assert zz_%d\n" % i)
+    script = ("import resource, sys\n"
+              "soft, hard = resource.getrlimit(resource.RLIMIT_NOFILE)\n"
+              "resource.setrlimit(resource.RLIMIT_NOFILE, (64, hard))\n"
+              "sys.argv = ['bandit', '-q', '-r', '-f', 'json', '--exit-zero', %r]\n"
+              "from bandit.cli import main\nmain.main()\n" % d)
+    p_ = subprocess.run([sys.executable, "-c", script], capture_output=True, text=True, timeout=600, env=dict(os.environ, PYTHONPATH=core.REPO))
+    R.case(("fd-limit", n), nontrivial=True, sample={"files": n, "descriptor_limit": 64, "exit": p_.returncode})
+    R.count("fd-limit")
+    inp = {"files": n, "each": "assert zz_i", "RLIMIT_NOFILE": 64}
+    try:
+        j = json.loads(p_.stdout[p_.stdout.index("{"):])
+    except Exception:  # noqa: BLE001
+        R.violations.append({"what": "no report for %d healthy files under a descriptor limit of 64 (exit %s)" % (n, p_.returncode), "input": inp,
+                             "observed": (p_.stderr or p_.stdout)[-400:], "signature": None})
+        shutil.rmtree(d, ignore_errors=True)
+        return
+    have = sorted(os.path.basename(x["filename"]) for x in j["results"] if x["test_id"] == "B101")
+    no_code = [os.path.basename(x["filename"]) for x in j["results"] if not (x.get("code") or "").strip()]
+    if j["errors"] or len(have) != n or no_code:
+        R.violations.append({"what": "%d healthy files under a descriptor limit of 64: %d skipped, %d findings, %d findings without an excerpt" % (
+            n, len(j["errors"]), len(have), len(no_code)), "input": inp, "observed": j["errors"][:3], "signature": None})
+    shutil.rmtree(d, ignore_errors=True)
+
+
 def check_faults(R, rng, tier):
     """A check that raises while one file is scanned (the tester logs it and goes on) costs that file's findings of that check
     only: files scanned afterwards keep all of theirs."""
@@ -571,6 +607,7 @@ def run(R, replay=None):
     faulty_sets(R, rng, R.tier)
     stdin_faults(R, rng, R.tier)
     order_independence(R, rng, R.tier)
+    many_findings_few_descriptors(R, rng, R.tier)
     check_faults(R, rng, R.tier)
     odd_names(R, rng, R.tier)
     odd_names_stdout(R, rng, R.tier)
